@@ -21,4 +21,9 @@ flows! {
     c41_scan_top(a: u32) -> (out: u32);
     c41_bounded_source_chain(a: u32) -> (init_sum: u32, out: u32);
     c41_top_bounded_keyed_fold(a: u32) -> (echo: u32, out: (u32, u32));
+    c31_batch(a: u32) -> (out: Vec<u32>);
+    c31_snapshot(a: u32) -> (out: (usize, usize));
+    c31_state(a: u32) -> (out: (u32, u32));
+    c31_two(a: u32, b: u32) -> (out: (Vec<u32>, Vec<u32>));
+    c34_counter(r: u32, w: u32) -> (ack: u32, read: (u32, usize));
 }
